@@ -129,7 +129,14 @@ def mutated(draw):
     return ''.join(toks)
 
 
+bigint_forms = st.one_of(
+    st.tuples(st.integers(2, 99), st.integers(300, 999)).map(lambda t: '%d^%d' % t),
+    st.integers(171, 400).map(lambda n: 'FACT(%d)' % n), st.integers(300, 400).map(lambda n: 'FACTDOUBLE(%d)' % n), st.integers(309, 700).map(lambda n: 'POWER(10,%d)' % n),
+    st.tuples(st.integers(2, 99), st.integers(300, 999), st.sampled_from(['+1', '*2', '&"x"', '=1', '/3', '-v_a'])).map(lambda t: '%d^%d%s' % t),
+    st.integers(1, 9).map(lambda d: 'PRODUCT(%s)' % ','.join(['99999999999999999999'] * (16 + d))), st.just('10^308*10'), st.just('-(7^400)'), st.just('{2^1100}'), st.just('SUM(3^700,1)'))
+
 string_case = st.one_of(
+    bigint_forms.map(lambda s: ['bigint', s]),
     st.text(max_size=200).map(lambda s: ['unicode', s]),
     st.text(st.characters(min_codepoint=0, max_codepoint=0x10FFFF, blacklist_categories=()), max_size=40).map(lambda s: ['unicode', s]),
     soup().map(lambda s: ['soup', s]), soup().map(lambda s: ['soup', s]),
@@ -150,10 +157,16 @@ def make_parser():
 
 
 def check_string(case):
+    import io
+    import contextlib
     kind, text = case
-    if bigcost(text):
+    if bigcost(text) and kind != 'bigint':
         raise Skip('big-integer-cost')
-    r = guarded_parse(make_parser(), text, what=kind)
+    P = make_parser()
+    if (len(text) + sum(map(ord, text[:3]))) % 3 == 0:
+        P.debug = True          # a third of the inputs with debug output on (the traceback goes to a buffer; stdout stays what it is)
+    with contextlib.redirect_stderr(io.StringIO()):
+        r = guarded_parse(P, text, what=kind + (' (debug on)' if P.debug else ''))
     return r
 
 
@@ -342,7 +355,7 @@ def arity_key(case):
 # ---------------------------------------------------------------- host faults
 
 EXC = ['ValueError', 'TypeError', 'KeyError', 'ZeroDivisionError', 'StopIteration', 'AssertionError', 'RecursionError', 'MemoryError', 'SyntaxError', 'UnicodeError', 'IndexError', 'OverflowError', 'AttributeError', 'RuntimeError', 'Exception', 'LookupError', 'NotImplementedError', 'OSError']
-val_spec = st.one_of(st.none(), st.booleans(), st.integers(-5, 5), st.floats(allow_nan=True, allow_infinity=True).map(lambda f: f if f == f and abs(f) != float('inf') else {'$': 'f', 'v': repr(f)}),
+val_spec = st.one_of(st.none(), st.booleans(), st.integers(-5, 5), st.integers(10 ** 308, 10 ** 330), st.integers(-10 ** 320, -10 ** 309), st.floats(allow_nan=True, allow_infinity=True).map(lambda f: f if f == f and abs(f) != float('inf') else {'$': 'f', 'v': repr(f)}),
                      st.text(max_size=5), st.lists(st.integers(0, 3), max_size=3), st.just({'$': 'obj', 'v': 1}), st.just({'$': 'tup', 'v': [1, 2]}), st.just({'$': 'dict', 'v': [['k', 1]]}),
                      st.sampled_from(CODES9).map(lambda c: {'$': 'err', 'v': c}))
 messages = st.one_of(st.sampled_from(CODES9), st.sampled_from(['#WEIRD', '', 'boom', '#N/A ', '#n/a', '#DIV/0', 'None', '#VALUE!x']), st.text(max_size=6))
@@ -541,8 +554,8 @@ def fuzz_ntweight(case):
 
 LAWS = [
     Law('strings', check_string, strategy=string_case, classes=string_classes, nontrivial=string_nontrivial, quick=12000, thorough=400000, shards=(16, 16),
-        required=('gen:unicode', 'gen:soup', 'gen:mutated', 'gen:valid'),
-        rule='(a) arbitrary Unicode text incl. surrogates and NUL up to 200 characters, (b) soups of 1-30 lexemes of every token class plus characters the lexer has no rule for, (c) valid generated formulas truncated / with a token deleted, duplicated, swapped or an unbalanced bracket or quote inserted, (d) valid formulas: '
+        required=('gen:unicode', 'gen:soup', 'gen:mutated', 'gen:valid', 'gen:bigint'),
+        rule='(a) arbitrary Unicode text incl. surrogates and NUL up to 200 characters, (b) soups of 1-30 lexemes of every token class plus characters the lexer has no rule for, (c) valid generated formulas truncated / with a token deleted, duplicated, swapped or an unbalanced bracket or quote inserted, (d) valid formulas, (e) formulas whose value is an integer far beyond the double range (a^b, FACT, POWER, PRODUCT); a third of the inputs with debug output on: '
              'parse returns within the step budget a record {result, error} with a canonical or empty error, an empty result when the error is set, and never an error object as result; non-trivial = at least 3 characters'),
     Law('repetitive', check_patho, strategy=patho_case, quick=3000, thorough=60000, shards=(16, 16), shrink=False,
         key=lambda c: 'cpu-time', nontrivial=lambda c: c['n'] >= 8,
